@@ -873,6 +873,8 @@ def _first_evaluated(e, target):
             e = e.test
         elif isinstance(e, (ast.Attribute, ast.Subscript, ast.Starred)):
             e = e.value
+        elif isinstance(e, ast.Yield) and e.value is not None:
+            e = e.value
         elif isinstance(e, ast.Call):
             if not _simple_arg(e.func):
                 e = e.func
